@@ -164,6 +164,9 @@ func cmdFn(repo, name, prop string, verbose bool) int {
 		if name != "" && ct.Short != name && ct.Fn != name && !strings.HasSuffix(ct.Fn, name) && !strings.HasSuffix(ct.Short, "."+name) {
 			continue
 		}
+		if len(onlySet) > 0 && onlySet[ct.Fn] {
+			onlySeen[ct.Fn] = true
+		}
 		if len(onlySet) > 0 && !onlySet[ct.Fn] {
 			continue
 		}
@@ -190,6 +193,14 @@ func cmdFn(repo, name, prop string, verbose bool) int {
 			}
 		}
 	}
+	if len(onlySet) > 0 {
+		for n := range onlySet {
+			if !onlySeen[n] {
+				fmt.Println("BROKEN -only names no function under contract:", n)
+				return 2
+			}
+		}
+	}
 	fmt.Println("SWEEP-DONE") // scripts treat a sweep without this line (killed, crashed) as incomplete, never as quiet
 	return rc
 }
@@ -205,6 +216,7 @@ func atoiEnv(name string, def int) int {
 }
 
 var onlySet map[string]bool
+var onlySeen = map[string]bool{}
 
 // normFingerprint: the SSA text of a function without positions (a moved but unchanged function is unchanged)
 func normFingerprint(fn *ssa.Function) string {
@@ -233,7 +245,7 @@ func packageFunctions(e *Engine) map[string]*ssa.Function {
 
 func cmdAffected(repo, base string) int {
 	if base == "" {
-		fmt.Println("ALL")
+		fmt.Println("AFFECTED ALL")
 		return 0
 	}
 	same := func(f string) bool {
@@ -242,17 +254,17 @@ func cmdAffected(repo, base string) int {
 		return e1 == nil && e2 == nil && string(a) == string(b)
 	}
 	if !same("schema.sql") || !same("verif_contracts.go") || !same("go.mod") {
-		fmt.Println("ALL")
+		fmt.Println("AFFECTED ALL")
 		return 0
 	}
 	e1, err := loadEngine(repo)
 	if err != nil {
-		fmt.Println("ALL")
+		fmt.Println("AFFECTED ALL")
 		return 0
 	}
 	e2, err := loadEngine(base)
 	if err != nil {
-		fmt.Println("ALL")
+		fmt.Println("AFFECTED ALL")
 		return 0
 	}
 	f1, f2 := packageFunctions(e1), packageFunctions(e2)
@@ -302,7 +314,7 @@ func cmdAffected(repo, base string) int {
 	}
 	cs, err := loadContracts(filepath.Join(repo, "verif_contracts.go"))
 	if err != nil {
-		fmt.Println("ALL")
+		fmt.Println("AFFECTED ALL")
 		return 0
 	}
 	e1.contracts = cs
@@ -352,10 +364,10 @@ func cmdAffected(repo, base string) int {
 	sort.Strings(ch)
 	fmt.Fprintf(os.Stderr, "changed functions: %s\n", strings.Join(ch, " "))
 	if len(out) == 0 {
-		fmt.Println("NONE")
+		fmt.Println("AFFECTED NONE")
 		return 0
 	}
-	fmt.Println(strings.Join(out, ","))
+	fmt.Println("AFFECTED " + strings.Join(out, ","))
 	return 0
 }
 
